@@ -193,7 +193,13 @@ class CGenerator:
         # no_type is used when a Decl is part of a DeclList, where the type is
         # explicitly only for the first declaration in a list.
         #
-        s = n.name if no_type else self._generate_decl(n)
+        # Later declarators of a DeclList keep their own pointer, array and
+        # function derivations; only the shared specifiers are omitted.
+        s = (
+            self._generate_type(n.type, emit_base=False)
+            if no_type
+            else self._generate_decl(n)
+        )
         if n.bitsize:
             s += " : " + self._visit_constant_expr(n.bitsize)
         if n.init:
@@ -511,6 +517,7 @@ class CGenerator:
         n: c_ast.Node,
         modifiers: List[c_ast.Node] = [],
         emit_declname: bool = True,
+        emit_base: bool = True,
     ) -> str:
         """Recursive generation from a type node. n is the type node.
         modifiers collects the PtrDecl, ArrayDecl and FuncDecl modifiers
@@ -557,6 +564,8 @@ class CGenerator:
                                 nstr = f"* {quals}{suffix}"
                             else:
                                 nstr = "*" + nstr
+                if not emit_base:
+                    return nstr
                 if nstr:
                     s += " " + nstr
                 return s
@@ -568,7 +577,10 @@ class CGenerator:
                 return " ".join(n.names) + " "
             case c_ast.ArrayDecl() | c_ast.PtrDecl() | c_ast.FuncDecl():
                 return self._generate_type(
-                    n.type, modifiers + [n], emit_declname=emit_declname
+                    n.type,
+                    modifiers + [n],
+                    emit_declname=emit_declname,
+                    emit_base=emit_base,
                 )
             case _:
                 return self.visit(n)
